@@ -218,14 +218,11 @@ def run_case(kind, q):
             except Exception as e:
                 return [f"IntegrationUDF raised {type(e).__name__}: {e}"]
             mask = np.asarray(pat.get_mask((2 * c, 2 * c)), dtype=np.float64)
+            import refimpl
             for f in range(q["nframes"]):
+                f64 = frames[f].astype(np.float64)
                 for k_, p in enumerate(centers[f]):
-                    tot = 0.0
-                    for y in range(2 * c):
-                        for x in range(2 * c):
-                            yy, xx = p[0] - c + y, p[1] - c + x
-                            if 0 <= yy < shape[0] and 0 <= xx < shape[1]:
-                                tot += mask[y, x] * float(frames[f, yy, xx])
+                    tot = float((mask * refimpl.window(f64, c, p)).sum())      # zero-padded window, plain sum
                     got = float(res["integration"].data[f, k_])
                     if abs(got - tot) > 1e-4 * max(1.0, abs(tot)):
                         msgs.append(f"IntegrationUDF frame {f} peak {p.tolist()}: {got} != masked sum {tot}")
@@ -245,8 +242,19 @@ def search(ctx, boost=1, focus=()):
         c = int(np.ceil(pat["search"]))
         shape = [int(rng.integers(2 * c + 2, 30)), int(rng.integers(2 * c + 2, 30))]
         nfr, npk = int(rng.integers(1, 7)), int(rng.integers(1, 5))
+        dtype = ["float32", "uint16", "float64"][k % 3]
+        if k < 2:
+            # more peaks per frame than crops of this size fit into the library's default buffer limit (2**19 bytes)
+            pat = dict(pat, radius=4.0, search=float(rng.integers(10, 14)))
+            pat.pop("radius_outer", None)
+            pat["kind"] = "circular"
+            c = int(np.ceil(pat["search"]))
+            dtype = ["float64", "int32"][k]
+            shape = [int(rng.integers(2 * c + 2, 50)), int(rng.integers(2 * c + 2, 50))]
+            nfr, npk = int(rng.integers(1, 4)), 2 ** 19 // ((2 * c) ** 2 * 8) + int(rng.integers(1, 30))
+            ctx.count("integration_many_peaks")
         centers = np.stack([rng.integers(-2 * c, shape[0] + 2 * c, (nfr, npk)), rng.integers(-2 * c, shape[1] + 2 * c, (nfr, npk))], axis=-1)
         q = {"seed": int(rng.integers(1 << 30)), "pattern": pat, "shape": shape, "nframes": nfr, "centers": centers.tolist(),
-             "partitions": partitions_of(rng, nfr), "dtype": ["float32", "uint16", "float64"][k % 3], "asym": k % 2 == 1}
+             "partitions": partitions_of(rng, nfr), "dtype": dtype, "asym": k % 2 == 1 and k >= 2}
         ctx.oracle_case("integration", q, run_case("integration", q), nontrivial=nfr > 1)
         ctx.count("integration")
